@@ -134,6 +134,13 @@ def make_env(P, servertype, commtimeout, linger=30.0, pool=(2, 40), variant=None
             # a oneway call on the per-connection instance (served by a thread of its own): once it has run, nothing of it remains
             world.entry(serial)["sess_ow_done"] = world.entry(serial).get("sess_ow_done", 0) + 1
 
+        def squares(self, n):
+            # an item stream that is no generator (a map object over one of this instance's own methods)
+            return map(self.square, range(n))
+
+        def square(self, i):
+            return i * i
+
         def touch(self):
             e = world.entry(ctx.client._vserial)
             e["session"] = weakref.ref(self)
@@ -208,6 +215,14 @@ def open_victim(fx, ser, ntrack, nuntrack, use_session, rec, nstreams=0):
                 raise RuntimeError("oneway call on the session instance was not served within 8 s")
             time.sleep(0.002)
         rec.count("oneway_calls_on_session_instances")
+    if use_session and nstreams and not fx.P.config.ITER_STREAM_LINGER:
+        # ... also a stream that belongs to the per-connection instance and has no close() of its own (with no linger period the stream goes
+        # with the connection, and the instance with it)
+        r = c.invoke("sess", "squares", (5,), {}, ser)
+        sid = bytes(r.anns.get("STRM", b"")).decode()
+        if sid:
+            c.invoke("Pyro.Daemon", "get_next_stream_item", (sid,), {}, ser)
+            rec.count("session_streams_left_open")
     for _ in range(nstreams):
         # an item stream that is still open when the connection ends is one more thing the daemon has to clean up
         r = c.invoke("svc", "gen", (5,), {}, ser)
